@@ -50,7 +50,7 @@ def CONCATENATE(*args):
         return arg
 
     try:
-        return ''.join((str(a) if not isinstance(test_arg(a), string_types) else a for a in utils.iflatten(args)))
+        return ''.join(('' if a is None else str(a)) if not isinstance(test_arg(a), string_types) else a for a in utils.iflatten(args))
     except XLError as xle:
         return xle
 
